@@ -155,7 +155,9 @@ func applyDamage(doc []byte, rootEnd int, d Damage) (out []byte, at int, damaged
 		o := append(append(append([]byte{}, doc[:p+1]...), []byte("& ")...), doc[p+1:]...)
 		return o, p + 1, true
 	case "unclosed_quote":
-		p, ok := pickFrom(occurrences(doc, func(i int) bool { return inRoot(i) && doc[i] == '"' && i+1 < len(doc) && (doc[i+1] == ' ' || doc[i+1] == '>' || doc[i+1] == '/') }))
+		p, ok := pickFrom(occurrences(doc, func(i int) bool {
+			return inRoot(i) && doc[i] == '"' && i+1 < len(doc) && (doc[i+1] == ' ' || doc[i+1] == '>' || doc[i+1] == '/')
+		}))
 		if !ok {
 			return doc, 0, false
 		}
